@@ -148,7 +148,7 @@ class World:
         self.home = os.path.join(self.root, "home")
         self.tx = Texts(self.root)
         self.capdrop = self._probe_capdrop()
-        self.pool = ThreadPoolExecutor(max_workers=min(14, (os.cpu_count() or 4)))
+        self.pool = ThreadPoolExecutor(max_workers=8)
         self.worker = None
         self.locked = []  # paths chmod 000, restored before removal
         self.concat_cache = {}
@@ -760,7 +760,10 @@ def check_case(world: World, model, out, spec, line_cache, xcheck):
                           "hook:layers-vs-one-file", layers=val, differences=diff, concatenated=cat3(val))
     elif what == "unreadable":
         pre = {k: v for k, v in got.items() if not k.startswith("log:files")}
-        if set(pre.values()) != {"decision:ask"}:
+        post = {p.name for p in probes(world.tx) if p.event == "PostToolUse"}
+        # a config error answers ask; a PostToolUse event (advisory) prints nothing, or ask before /repo 007d10b
+        bad = {k: v for k, v in pre.items() if not (v == "decision:ask" or (k in post and v == "silent"))}
+        if bad:
             first_denied = next((e for _, e, t in b["chain"] if t is not None or e in (["link", ["denied"]], ["denied"])), None)
             user_ok = b["user"][1] != ["denied"] and b["u_text"] != "<unreadable>"
             if user_ok and first_denied in (["link", ["denied"]], ["denied"]) and set(pre.values()) == {"none"}:
@@ -776,7 +779,8 @@ def check_case(world: World, model, out, spec, line_cache, xcheck):
     # ---------- the real load_config in-process
     real = world.ask(op="load", cwd=b["cwd"] if via != "process" else b["real_cwd"], env=b["envv"], resolve=True)
     real_unres = world.ask(op="load", cwd=b["cwd"], env=b["envv"], resolve=False)
-    if real != real_unres:
+    kind_only = lambda r: {"configerr": True} if "configerr" in r else r  # noqa: E731  (never compare wording)
+    if kind_only(real) != kind_only(real_unres):
         violation("resolve", "load_config(cwd) differs from load_config(cwd.resolve())", "load_config:resolve",
                   resolved=real, unresolved=real_unres)
     real_find = world.ask(op="find", cwd=b["cwd"])
@@ -892,19 +896,63 @@ def parse_correspondence(world, model, out, texts, line_cache, rng):
 
 
 # ------------------------------------------------------------------------------------------------ entry
+class Lane:
+    """One scratch world with its own HOME, worker and model process; lanes run side by side."""
+
+    def __init__(self, pid):
+        self.out = core.Outcome(pid)
+        self.world = World()
+        self.model = lib.Model()
+        self.xcheck = []
+        self.line_cache = {}
+        self.texts = []
+        self.world.start_worker()
+        assert self.world.ask(op="user_config")["ok"] == os.path.join(self.world.home, ".dippy", "config")
+
+    def run(self, specs):
+        for spec in specs:
+            self.model = check_case(self.world, self.model, self.out, spec, self.line_cache, self.xcheck)
+            fresh = sum(1 for v in self.out.violations if v.get("call_site") != CS_DEFAULT)
+            if fresh + len(self.out.disagreements) > 15:
+                self.out.notes.append(f"lane stopped after case {spec['id']}: more than 15 failures already recorded")
+                break
+            self.texts += [spec["user"]["text"], spec["env"]["text"]] + [l["text"] for l in spec["levels"] if l.get("text")]
+
+    def close(self):
+        self.model.close()
+        self.world.close()
+
+
+def merge(out, part):
+    out.evaluations += part.evaluations
+    out.distinct |= part.distinct
+    out.violations += part.violations
+    out.disagreements += part.disagreements
+    out.notes += part.notes
+    for dim, d in part.dist.items():
+        for k, v in d.items():
+            out.dist.setdefault(dim, {})
+            out.dist[dim][k] = out.dist[dim].get(k, 0) + v
+    for k, v in part.extra.items():
+        out.extra.setdefault(k, v)
+    for x in part.samples:
+        out.sample(x)
+
+
 def run(tier, seed, replay=None):
     rng = random.Random(seed)
     out = core.Outcome("C10")
-    world = World()
-    model = lib.Model()
+    n_lanes = 1 if replay else (5 if tier == "quick" else 6)
+    lanes = []
     xcheck = []
-    line_cache = {}
     try:
+        for _ in range(n_lanes):
+            lanes.append(Lane("C10"))
+        world = lanes[0].world
         capdrop_ok = world.capdrop is not None
         out.extra["permission_cases"] = ("root with CAP_DAC_OVERRIDE/CAP_DAC_READ_SEARCH dropped by setpriv" if world.capdrop
                                          else "non-root" if capdrop_ok else "SKIPPED: root and no setpriv")
-        world.start_worker()
-        assert world.ask(op="user_config")["ok"] == os.path.join(world.home, ".dippy", "config")
+        out.extra["parallel_scratch_worlds"] = n_lanes
         if replay:
             spec = dict(replay["spec"])
             spec["id"] = 0
@@ -913,24 +961,24 @@ def run(tier, seed, replay=None):
             discrimination(world, out)
             specs = systematic(rng, world.tx, capdrop_ok, quick=(tier == "quick"))
             out.extra["systematic_cases"] = len(specs)
-            total = 200 if tier == "quick" else 1300
+            total = 200 if tier == "quick" else 1500
             while len(specs) < total:
                 specs.append(rand_spec(rng, world.tx, len(specs), capdrop_ok))
-        all_texts = []
-        for spec in specs:
-            model = check_case(world, model, out, spec, line_cache, xcheck)
-            fresh = sum(1 for v in out.violations if v.get("call_site") not in (CS_DEFAULT, CS_NOUSER, CS_PROJ_DENIED))
-            if fresh + len(out.disagreements) > 40:
-                out.notes.append(f"stopped after case {spec['id']}: more than 40 failures already recorded")
-                break
-            all_texts += [spec["user"]["text"], spec["env"]["text"]] + [l["text"] for l in spec["levels"] if l.get("text")]
+        with ThreadPoolExecutor(max_workers=n_lanes) as ex:
+            futs = [ex.submit(lane.run, specs[k::n_lanes]) for k, lane in enumerate(lanes)]
+            for f in futs:
+                f.result()
+        for lane in lanes:
+            merge(out, lane.out)
+            xcheck += lane.xcheck[:max(6, 30 // n_lanes)]
         if not replay:
-            parse_correspondence(world, model, out, all_texts if tier != "quick" else all_texts[:400], line_cache, rng)
-        out.extra["hook_subprocess_runs"] = world.hook_runs
-        out.extra["one_file_runs_cached"] = len(world.concat_cache)
+            texts = [t for lane in lanes for t in lane.texts]
+            parse_correspondence(world, lanes[0].model, out, texts if tier != "quick" else texts[:400], lanes[0].line_cache, rng)
+        out.extra["hook_subprocess_runs"] = sum(l.world.hook_runs for l in lanes)
+        out.extra["one_file_runs"] = sum(len(l.world.concat_cache) for l in lanes)
     finally:
-        model.close()
-        world.close()
+        for lane in lanes:
+            lane.close()
     n, mism = core.coq_crosscheck("C10", xcheck)
     out.extra["coq_vm_crosscheck"] = {"cases": n, "mismatches": len(mism)}
     if mism:
